@@ -243,6 +243,8 @@ class Gen:
         self.rules = []
         self.pending = []     # names of rules still to be defined: (name, kind)
         self.counter = 0
+        self.generic_defs = []
+        self.socket_defs = []
 
     # -- scalars
     def small_int(self):
@@ -296,9 +298,44 @@ class Gen:
     def can_ref(self):
         return len(self.rules) + len(self.pending) < self.max_rules
 
+    def ext_t1(self, d):
+        """constructs of the shared feature set beyond the C01 core (profile 'shared')"""
+        r = self.rnd
+        x = r.random()
+        if x < 0.2:
+            return ctl(r.choice(["and", "within"]), r.choice([ref("int"), ref("uint"), rng(lit(C.mk_int(0)), lit(C.mk_int(10)))]),
+                       r.choice([ref("uint"), rng(lit(C.mk_int(-5)), lit(C.mk_int(5))), ref("int")]))
+        if x < 0.35:
+            return {"k": "enumg", "g": {"galts": [[ent(T(lit(C.mk_int(i))), key=kbare(n)) for n, i in (("a", 1), ("b", 2), ("c", 3))][:r.choice([2, 3])]]}}
+        if x < 0.55 and self.can_ref():
+            # generic rule p<T> = [* T] / {k: T} / T / nil
+            self.counter += 1
+            n = "p%d" % self.counter
+            body = r.choice([T(arr([ent(T(ref("T")), 0, -1)])), T(mp([ent(T(ref("T")), key=kbare("k"))])), T(ref("T"), ref("nil")),
+                             T(arr([ent(T(ref("T"))), ent(T(ref("tstr")), 0, 1)]))])
+            self.generic_defs.append(trule(n, body, params=["T"]))
+            return ref(n, [self.scalar_t1() if r.random() < 0.7 else ref("tstr")])
+        if x < 0.7:
+            # socket: $s with 1-2 plugs
+            self.counter += 1
+            n = "$s%d" % self.counter
+            self.socket_defs.append(trule(n, T(self.scalar_t1()), op="/="))
+            if r.random() < 0.5:
+                self.socket_defs.append(trule(n, T(self.scalar_t1()), op="/="))
+            return ref(n)
+        if x < 0.85 and self.can_ref():
+            # array rule + unwrap inside an array
+            self.counter += 1
+            n = "u%d" % self.counter
+            self.generic_defs.append(trule(n, T(arr([ent(T(ref("int"))), ent(T(ref("tstr")), 0, 1)]))))
+            return arr([ent(T({"k": "unwrap", "n": n, "args": []})), ent(T(ref("bool")), 0, -1)])
+        return ctl("default", ref(r.choice(["int", "tstr"])), lit(C.mk_int(1)))
+
     def t1(self, d):
         r = self.rnd
         x = r.random()
+        if self.profile == "shared" and r.random() < 0.18:
+            return self.ext_t1(d)
         if d <= 0 or x < 0.35:
             return self.scalar_t1()
         if x < 0.6:
@@ -388,7 +425,8 @@ class Gen:
     def schema(self):
         for _ in range(50):
             self.rules, self.pending, self.counter = [], [], 0
-            rules = self._schema()
+            self.generic_defs, self.socket_defs = [], []
+            rules = self._schema() + self.generic_defs + self.socket_defs
             if in_fragment(rules):
                 return rules
         return [trule("root", T(ref("int")))]
